@@ -9,6 +9,7 @@ over the whole job, and every rendering is scanned for the plaintext.
 import base64
 import hashlib
 import itertools
+import random
 
 from mc import values as V
 
@@ -22,7 +23,9 @@ ASSUMPTIONS = ["hashlib is the reference for the six algorithms", "salt quality 
 
 ALGS = ["md5", "sha1", "sha224", "sha256", "sha384", "sha512"]
 SECRETS = ["", "a", "b", "A", "a ", "aa", "é", "é", "a\x00", {"$": "bigstr", "c": "a", "n": 1000}, V.Y(b"a"), V.Y(b"\xff"),
-           "hunter2-ZQX", "pässwörd-ÜÑ", "user:pass", "abcd:efgh", ":", "QUJD:QUJD", "sysadmin:hunter22", "{\"salt\": \"x\"}"]
+           "hunter2-ZQX", "hunter2?", "pässwörd-ÜÑ", "user:pass", "abcd:efgh", ":", "QUJD:QUJD", "sysadmin:hunter22", "{\"salt\": \"x\"}"]
+# presented to challenge() only: text with a lone surrogate has no UTF-8 form, so it can be nobody's secret
+UNENCODABLE = ["hunter2\udcff", "\udcff", "a\ud800"]
 FORMATS = ["json", "yaml", "xml", "bson", "pickle"]
 ROUTES = ["attr", "ctor", "default", "default-callable", "digest-default", "load_tree", "document", "document-yaml", "document-xml", "list-assign", "list-append",
           "list-assign-dup", "tuple-assign-dup", "list-default-dup", "dict-assign-dup", "dict-item", "dict-setdefault", "dict-update", "dict-ior", "dict-assign", "list-insert", "list-setitem", "list-setslice", "list-extend", "list-iadd",
@@ -181,6 +184,14 @@ def check_digest(ctx, bad, alg, dv, p, others, salts, where):
                 pass
             except Exception as exc:  # noqa
                 bad("challenge-wrong-exception", "%s: failed challenge raised %s, not ValueError" % (where, type(exc).__name__))
+    for q in UNENCODABLE:
+        try:
+            dv.challenge(q)
+            bad("challenge-accepts-unencodable", "%s: challenge(%r) succeeded for secret %s" % (where, q, V.show(p, 30)))
+        except ValueError:
+            pass
+        except Exception as exc:  # noqa
+            bad("challenge-wrong-exception", "%s: a challenge with unencodable text raised %s, not a ValueError" % (where, type(exc).__name__))
     try:
         dv.challenge(p)
     except Exception as exc:  # noqa
@@ -256,6 +267,7 @@ def _pairs(job, ctx):
                 cfg, get = schema(), (lambda c: c.pw)
             else:
                 schema = _world(alg)
+                random.seed(20240917)          # the library's salts must not come from the shared pseudo-random generator
                 cfg, get = _place(schema, route, p, alg)
             dv = get(cfg)
         except Exception as exc:  # noqa
@@ -277,6 +289,7 @@ def _pairs(job, ctx):
                 if route in ("default", "default-callable"):
                     cfg2, get2 = schema(), get
                 else:
+                    random.seed(20240917)
                     cfg2, get2 = _place(schema, route, p, alg)
                 dv2 = get2(cfg2)
                 ctx.transitions += 1
